@@ -7,7 +7,9 @@ C16, `NewBlockFromBytes` on input the wire package does not write back identical
 that were consumed".  The law is an *assumption about the external package `bchd/wire`* — and it is false there for one
 input class (found in wave 7 by running the real code at this hypothesis): an output whose script field starts with the
 CashToken prefix byte 0xef followed by an all-zero category is parsed into token data that `wire` treats as "no token"
-when writing.  The theorems below say exactly what the wrapper does then: it keeps the consumed bytes (model =
+when writing (an observation about the external package: it is recorded as a known finding and evaluated on the real
+package by the harness — it cannot be a theorem here, where `wire` is the parameter `deser` / `W`).  The theorems below
+are short corollaries of `Props/C16Tx.lean` that say exactly what the wrapper does then: it keeps the consumed bytes (model =
 implementation, compared on every run by the `blk raw` cases), so the cache invariant fails exactly for such input.
 -/
 namespace Bch.Props.C16
